@@ -40,6 +40,9 @@ def run(repo, run, tier):
     # 'however many events are monitored': the duplicate test of one event reads only that event's own latest record
     from .c07 import index_sorts
     index_sorts(repo, run, m, rule_id="C08.10")
+    # the event functions are evaluated on the piece the dense-output lookup selects for the step just taken: the list it bisects must stay sorted
+    from .c06 import containers
+    containers(repo, run, rule_id="C08.11", position_only=True)
 
 
 def pruning(repo, run, m):
